@@ -3,17 +3,19 @@
 (* An exact matcher for the regular-expression FRAGMENT that the           *)
 (* specification gives a meaning to (everything outside it is only ever    *)
 (* exercised through "two real pipelines agree", C14):                     *)
-(*   literal characters, ".", the classes \d \w \s, greedy * + ? on a      *)
-(*   single-character element, ^ $ \b, one capture group, alternation,     *)
+(*   literal characters, ".", the classes \d \w \s and their complements  *)
+(*   \D \W \S (a pattern is case-SENSITIVE in its escapes even though      *)
+(*   matching ignores the case of letters), greedy * + ? on a              *)
+(*   single-character element, ^ $ \b \B, one capture group, alternation,  *)
 (*   negative look-ahead of a literal.  Matching is case-insensitive       *)
 (*   (tally always compiles with re.IGNORECASE) and follows Python's       *)
 (*   backtracking priority (leftmost start, greedy first), so the capture  *)
 (*   group that extract() returns is determined.                           *)
 (*                                                                         *)
 (* A pattern is a sequence of elements:                                    *)
-(*   [e |-> "lit", c |-> code]   [e |-> "any"]   [e |-> "cls", s |-> "d"|"w"|"s"] *)
+(*   [e |-> "lit", c |-> code]   [e |-> "any"]   [e |-> "cls", s |-> "d"|"w"|"s"|"D"|"W"|"S"] *)
 (*   [e |-> "star"|"plus"|"opt", x |-> single-char element]                *)
-(*   [e |-> "bol"] [e |-> "eol"] [e |-> "wb"] [e |-> "gs"] [e |-> "ge"]    *)
+(*   [e |-> "bol"] [e |-> "eol"] [e |-> "wb"] [e |-> "nwb"] [e |-> "gs"] [e |-> "ge"] *)
 (*   [e |-> "neg", p |-> text]   [e |-> "alt", a |-> pattern, b |-> pattern]*)
 (***************************************************************************)
 EXTENDS Text
@@ -23,7 +25,8 @@ Fail == <<-1, -1, -1>>
 CharOK(x, c) ==
   CASE x.e = "lit" -> Upper(c) = Upper(x.c)
     [] x.e = "any" -> c # 10
-    [] x.e = "cls" -> (CASE x.s = "d" -> IsDigit(c) [] x.s = "w" -> IsWord(c) [] x.s = "s" -> IsSpace(c))
+    [] x.e = "cls" -> (CASE x.s = "d" -> IsDigit(c) [] x.s = "w" -> IsWord(c) [] x.s = "s" -> IsSpace(c)
+                            [] x.s = "D" -> ~IsDigit(c) [] x.s = "W" -> ~IsWord(c) [] x.s = "S" -> ~IsSpace(c))
     [] OTHER -> FALSE
 
 \* number of consecutive characters from offset j (0-based) accepted by x
@@ -48,6 +51,7 @@ M(pat, k, text, j, g) ==
       [] x.e = "eol"  -> IF j = Len(text) \/ (j = Len(text) - 1 /\ text[Len(text)] = 10)
                          THEN M(pat, k + 1, text, j, g) ELSE Fail
       [] x.e = "wb"   -> IF WordAt(text, j) # WordAt(text, j + 1) THEN M(pat, k + 1, text, j, g) ELSE Fail
+      [] x.e = "nwb"  -> IF WordAt(text, j) = WordAt(text, j + 1) THEN M(pat, k + 1, text, j, g) ELSE Fail
       [] x.e = "gs"   -> M(pat, k + 1, text, j, <<j, g[2]>>)
       [] x.e = "ge"   -> M(pat, k + 1, text, j, <<g[1], j>>)
       [] x.e = "neg"  -> IF IsPrefixAt(UpperT(x.p), UpperT(text), j + 1) THEN Fail ELSE M(pat, k + 1, text, j, g)
